@@ -164,10 +164,11 @@ Kill(r, l) ==
           /\ out' = [killed |-> dead, resolved |-> {}, cancelled |-> gone]
     /\ UNCHANGED tracked
 
-\* RegionHandshake: start tracking the region's objects.  Environment assumption: nothing is
-\* attributed to the region yet (no straggler moved an object into it before its handshake and
-\* is still there).
-TrackOK(r) == r \in Trackable \ tracked /\ InRegion(obj, r) = {}
+\* RegionHandshake: start tracking the region's objects.  Objects a straggler update attributed to
+\* the region before its handshake (regionless so far) are its objects from now on: obj is
+\* unchanged, but they are Linked now, so the derived views index them by local ID and link /
+\* orphan them exactly as a fresh announcement would.
+TrackOK(r) == r \in Trackable \ tracked
 Track(r) ==
     /\ TrackOK(r)
     /\ tracked' = tracked \cup {r}
@@ -212,7 +213,7 @@ TypeOK == /\ \A f \in FullIDs : obj[f] = Absent \/
           /\ pending \subseteq (Trackable \X Locals \X ReqTypes)
 \* the guards keep the environment assumptions
 EnvKept == UniqueSlots(obj) /\ NoCycle(obj)
-\* every object is attributed to a region; a region becomes tracked only while it is empty
+\* every object is attributed to a region
 RegionsKnown == \A f \in LiveIn(obj) : obj[f].region \in Regions
 \* unloading a region leaves nothing attributed to it, and touches nothing else
 UnloadComplete == [][\A r \in Trackable : Teardown(r) =>
@@ -245,6 +246,7 @@ Tags(n, kind, f, r, loc) ==
           THEN {"cachedHit-known-fullid"} ELSE {})
     \cup (IF n = "Kill" /\ AtSlot(obj, r, loc) = {} /\ NamesAsParent(obj, r, loc) \cap Avatars # {}
           THEN {"kill-untracked-parent-of-avatar"} ELSE {})
+    \cup (IF n = "Track" /\ InRegion(obj, r) # {} THEN {"track-adopts-stragglers"} ELSE {})
     \cup (IF n = "Teardown" /\ r \notin tracked /\ InRegion(obj, r) # {}
           THEN {"unloads-untracked-region"} ELSE {})
     \cup (IF out'.cancelled # {} THEN {"cancels-requests"} ELSE {})
